@@ -178,9 +178,10 @@ func ParseChainID(chainID string) uint64 {
 	}
 	splitStr := strings.Split(chainID, "-")
 	revision, err := strconv.ParseUint(splitStr[len(splitStr)-1], 10, 64)
-	// sanity check: error should always be nil since regex only allows numbers in last element
+	// the regex only allows digits in the last element, so the only possible error is a
+	// revision number that does not fit in a uint64: such a chainID is not in revision format
 	if err != nil {
-		panic(fmt.Errorf("regex allowed non-number value as last split element for chainID: %s", chainID))
+		return 0
 	}
 	return revision
 }
